@@ -91,9 +91,12 @@ class TextFile(PE.Obj):
             fields["name"] = name
         PE.Obj.__init__(self, fields)
 
-    def _read(self, *a):
-        out = self.text[self.pos:]
-        self.pos = len(self.text)
+    def _read(self, size=-1):
+        if size is None or size < 0:
+            out = self.text[self.pos:]
+        else:
+            out = self.text[self.pos:self.pos + size]
+        self.pos += len(out)
         return out
 
     def _seek(self, p, whence=0):
@@ -632,14 +635,18 @@ def free_layout(stmts, rng, features, first_indent_max=2):
         if "before" in features and rng.random() < 0.4:
             for _ in range(rng.randint(1, 2)):
                 if rng.random() < 0.5:
-                    c = " " * rng.randint(0, 4) + "! note %d" % len(lines)
+                    c = " " * (rng.randint(6, 9) if "margin" in features else rng.randint(0, 4)) \
+                        + rng.choice(["! note %d", "! note %d", "!$omp note %d", "!dir$ note %d"]) % len(lines)
                     lines.append(c)
                     items.append(Cm(c.lstrip(), len(lines)))
                 else:
                     lines.append("" if rng.random() < 0.7 else "   ")
                     items.append(Cm("", len(lines)))
         indent = " " * (rng.randint(0, 8) if "indent" in features else 0)
-        if first:
+        if "margin" in features:
+            # a legacy six-blank margin on every line: the only sign of free form is an '&' at the end of a line (blanks may follow)
+            indent = " " * rng.randint(6, 9)
+        elif first:
             # the first statement starts in columns 1-5 (with a label in front, its text does)
             indent = "" if label is not None else indent[:first_indent_max]
         if not indent and (head(label, name) + text)[0] in "cC*":
@@ -666,7 +673,7 @@ def free_layout(stmts, rng, features, first_indent_max=2):
             continue
         # continuation lines
         cuts = []
-        if "split" in features and rng.random() < 0.7:
+        if "split" in features and (rng.random() < 0.7 or ("margin" in features and i < 2)):
             b = token_boundaries(text)
             if b:
                 cuts = sorted(rng.sample(b, min(len(b), rng.randint(1, 3))))
@@ -695,7 +702,10 @@ def free_layout(stmts, rng, features, first_indent_max=2):
             tail_amp = ""
             if si < len(segs) - 1:
                 tail_amp = "&" if (exact or in_literal(text, b_)) else rng.choice([" &", "&", " &  "])
-            phys = (indent if si == 0 else " " * rng.randint(0, 10)) + (head(label, name) if si == 0 else "") + lead + seg + tail_amp
+                if "margin" in features:
+                    tail_amp = tail_amp.rstrip() + "   "
+            phys = (indent if si == 0 else " " * (rng.randint(6, 12) if "margin" in features else rng.randint(0, 10))) \
+                + (head(label, name) if si == 0 else "") + lead + seg + tail_amp
             if "trailing" in features and rng.random() < 0.4 and not (si < len(segs) - 1 and in_literal(text, b_)):
                 c = "! t%d %s" % (si, rng.choice(["", "it's", "'q'", "& x", "; y"]))
                 c = c.rstrip()
@@ -706,7 +716,8 @@ def free_layout(stmts, rng, features, first_indent_max=2):
             if si < len(segs) - 1 and "between" in features and rng.random() < 0.5:
                 for _ in range(rng.randint(1, 2)):
                     if rng.random() < 0.6:
-                        c = " " * rng.randint(0, 6) + "! mid %d" % len(lines)
+                        c = " " * (rng.randint(6, 9) if "margin" in features else rng.randint(0, 6)) \
+                            + rng.choice(["! mid %d", "! mid %d", "!$acc mid %d"] + ([] if "margin" in features else ["!$omp mid %d &"])) % len(lines)
                         lines.append(c)
                         comments.append((c.lstrip(), len(lines), False))
                     else:
@@ -755,7 +766,7 @@ def run_case(world_factory, case):
     return got, w
 
 
-FIX_MARKS = ["&", "1", "9", "+", "$", "x", "*", "."]
+FIX_MARKS = ["&", "1", "9", "+", "$", "x", "*", ".", "#", "!", "c"]
 
 
 def fixed_layout(stmts, rng, features, hidden=None):
@@ -878,7 +889,7 @@ def omp_free_layout(stmts, rng, features, hidden):
             lines.append(phys)
             phys_of.append((phys, len(lines)))
             if si < len(segs) - 1 and "between" in features and rng.random() < 0.5:
-                c = "  ! mid %d" % len(lines)
+                c = ("  ! mid %d" if hide or rng.random() < 0.4 else rng.choice(["  !$omp mid %d", "!$omp mid %d &", "  !$acc mid %d"])) % len(lines)
                 lines.append(c)
                 mids.append((c.lstrip(), len(lines)))
         last = len(lines)
@@ -905,7 +916,7 @@ CPP_LINES = [
 ]
 
 
-def with_directives(lines, items, rng, n_dir, fixed=False):
+def with_directives(lines, items, rng, n_dir, fixed=False, at_top=None):
     """insert preprocessor lines between the statements of an already rendered source (never inside a continued statement).
     Returns (lines, items): the directive items sit where the lines are, every other item keeps its text and moves by the number of
     lines inserted above it."""
@@ -914,6 +925,8 @@ def with_directives(lines, items, rng, n_dir, fixed=False):
     ok_pos = [p for p in range(1, len(lines) + 2) if not any(a < p <= b for a, b in stmt_spans)]
     chosen = sorted(rng.choice(ok_pos) for _ in range(n_dir))
     ins = {}
+    if at_top is not None:
+        ins[1] = [at_top]
     for p in chosen:
         ins.setdefault(p, []).append(rng.choice(CPP_LINES))
     out_lines, new_no = [], {}
@@ -945,7 +958,7 @@ def with_directives(lines, items, rng, n_dir, fixed=False):
     return out_lines, out_items
 
 
-def include_layout(stmts, rng, features, nested=False):
+def include_layout(stmts, rng, features, nested=False, fixed_files=False, missing_first=False):
     """free form with a run of whole statements moved into a file of the (virtual) include directory `inc`; a second directory
     `other`, searched later, holds a file of the same name with different content.  Returns (lines, items, files, include_dirs)."""
     n = len(stmts)
@@ -953,20 +966,31 @@ def include_layout(stmts, rng, features, nested=False):
     b = rng.randint(a + 1, n - 1)
     inner = stmts[a:b]
     files = {}
-    inner_lines, inner_items = free_layout(inner, rng, features, first_indent_max=2)
+    if fixed_files:
+        ffeat = {f for f in features if f in ("split", "between", "trailing", "before")} | {"labels"}
+        lay = lambda st: fixed_layout(st, rng, ffeat)
+        inc_deep = "      include 'deep.inc'"
+    else:
+        lay = lambda st: free_layout(st, rng, features, first_indent_max=2)
+        inc_deep = "include 'deep.inc'"
+    inner_lines, inner_items = lay(inner)
     if nested and len(inner) >= 2:
         k = rng.randint(1, len(inner) - 1)
         deep = inner[k:]
-        deep_lines, deep_items = free_layout(deep, rng, features, first_indent_max=2)
+        deep_lines, deep_items = lay(deep)
         files["inc/deep.inc"] = "\n".join(deep_lines) + "\n"
-        head_lines, head_items = free_layout(inner[:k], rng, features, first_indent_max=2)
-        inner_lines = head_lines + ["include 'deep.inc'"]
+        head_lines, head_items = lay(inner[:k])
+        inner_lines = head_lines + [inc_deep]
         inner_items = head_items + deep_items
     files["inc/part.inc"] = "\n".join(inner_lines) + "\n"
     files["other/part.inc"] = "wrong = 1\n"
     pre_lines, pre_items = free_layout(stmts[:a], rng, features)
     inc_line = rng.choice(["include 'part.inc'", "  include \"part.inc\"", "INCLUDE 'part.inc'"])
-    lines = pre_lines + [inc_line]
+    lines = pre_lines
+    if missing_first:
+        lines = lines + ["include 'absent.inc'"]
+        pre_items = pre_items + [L("include 'absent.inc'", (len(lines), len(lines)))]
+    lines = lines + [inc_line]
     post_lines, post_items = free_layout(stmts[b:], rng, features, first_indent_max=8)
     off = len(lines)
     lines = lines + post_lines
@@ -986,6 +1010,7 @@ FREE_FEATURES = [
     ("trailing comments", {"trailing"}), ("statements joined with ';'", {"semicolon"}),
     ("';' with trailing comments", {"semicolon", "trailing", "before"}),
     ("everything at once", {"split", "lead", "between", "trailing", "indent", "before", "semicolon"}),
+    ("six-blank margin, '&' followed by blanks", {"split", "lead", "between", "before", "margin"}),
 ]
 FIXED_FEATURES = [
     ("plain", set()), ("label placement within columns 1-5", {"labels"}), ("'0' in column 6 of an initial line", {"zero", "labels"}),
@@ -1016,7 +1041,7 @@ class Runner:
     def reps(self, quick, thorough):
         return quick if self.tier == "quick" else thorough
 
-    def read(self, case, after_item=None):
+    def read(self, case, after_item=None, lookahead=False):
         """the items of the case (None after an analysis problem, which is recorded on the rule result)"""
         r = self.r
         try:
@@ -1030,13 +1055,28 @@ class Runner:
             rd = make_reader(w, case.source, mode=case.mode, **case.opts)
             out = []
             nxt = rd.get(w.ev, "next")
-            for _ in range(600):
+
+            def get():
                 try:
-                    item = nxt()
+                    return nxt()
                 except PE.PyRaise as err:
                     if err.exc_type == "StopIteration":
-                        break
+                        return None
                     raise
+            for _ in range(600):
+                item = get()
+                if item is None:
+                    break
+                if lookahead:
+                    # a consumer that reads one more item, then restores both (last one first) and reads again
+                    ahead = get()
+                    put = rd.get(w.ev, "put_item")
+                    if ahead is not None:
+                        put(ahead)
+                    put(item)
+                    item = get()
+                    if item is None:
+                        break
                 out.append(summarise(w, item))
                 if after_item is not None:
                     after_item(w, rd, item, out)
@@ -1165,6 +1205,14 @@ def stream_rule(m, rid, tier):
                     r.ob(end is None)
                     if end is not None:
                         run.fail(case, "end", "get_item() after the last item gives %r, not None" % (end,))
+    # the reader is told the source is fixed form; a statement that starts in the label field makes it go on in free form, and
+    # that line is already delivered as the free-form statement it is
+    lines = ["      subroutine Foo(n)", "      integer n, i", "      do 10 i = 1, n", "        n = n + i", " 10 continue", "      end"]
+    items = [L("subroutine Foo(n)", (1, 1)), L("integer n, i", (2, 2)), L("do 10 i = 1, n", (3, 3)), L("n = n + i", (4, 4)),
+             L("continue", (5, 5), 10), L("end", (6, 6))]
+    case = Case("declared-fixed-turns-free", lines, items, {"ignore_comments": False}, mode="fix",
+                what="declared fixed form, one statement starts in column 2")
+    run.expect(case, items)
     r.floor = 60
     return r
 
@@ -1186,6 +1234,13 @@ def comments_rule(m, rid, tier):
                 case = Case(title, lines, items, {"ignore_comments": False}, what="%s, comments kept" % title)
                 if run.expect(case, items) is None and run.dead:
                     return r
+                # no line of these sources is a conditional-compilation line ('!$' followed by a blank), so enabling their
+                # handling or the processing of directives changes nothing: '!$omp ...' lines are comments like any other
+                for extra in ({"include_omp_conditional_lines": True}, {"process_directives": True}):
+                    case2 = Case(title + "/" + list(extra)[0], lines, items, dict({"ignore_comments": False}, **extra),
+                                 what="%s, comments kept, %s=True" % (title, list(extra)[0]))
+                    if run.expect(case2, items) is None and run.dead:
+                        return r
                 ign = run.read(Case(title, lines, items, {"ignore_comments": True}, what="%s, comments ignored" % title))
                 # the same source with every comment removed (lines that only hold a comment or nothing disappear, so only text,
                 # label and name are comparable)
@@ -1196,8 +1251,8 @@ def comments_rule(m, rid, tier):
                         return r
                     continue
                 r.instances += 1
-                a = [(i[0], squeeze(i[1] or ""), i[3], i[4]) for i in ign]
-                b = [(i[0], squeeze(i[1] or ""), i[3], i[4]) for i in bare]
+                a = [(i[0], squeeze(i[1] or "")) + tuple(i[3:5]) for i in ign]
+                b = [(i[0], squeeze(i[1] or "")) + tuple(i[3:5]) for i in bare]
                 r.ob(a == b and all(i[0] != "Comment" for i in ign))
                 if a != b or any(i[0] == "Comment" for i in ign):
                     k = next((j for j in range(min(len(a), len(b))) if a[j] != b[j]), min(len(a), len(b)))
@@ -1281,6 +1336,40 @@ def fixed_rule(m, rid, tier):
                     fmt = run.reader.get(run.world.ev, "format")
                     if not fmt.get(run.world.ev, "is_fixed"):
                         run.fail(case, "form", "the source is fixed form but is read as %s" % fmt.get(run.world.ev, "mode"))
+    # a long file: the form is a property of the whole text, however the file is read (a fixed-form file of 70 000 / 150 000 characters,
+    # given by name and as an open file)
+    if not run.dead:
+        rng = _rng("fixed", "long")
+        text = []
+        size = 70000 if tier == "quick" else 150000
+        total = 0
+        while total < size:
+            lines, _items = fixed_layout(PROGRAMS[len(text) % 3], rng, {"split", "before", "labels", "indent"})
+            text.extend(lines)
+            total += sum(len(x) + 1 for x in lines)
+        long_text = "\n".join(text) + "\n"
+        try:
+            w = run.world or World(m)
+            run.world = w
+            w.files = {"big/long.f": long_text}
+            w.ev.steps = 0
+            for how in ("name", "file object"):
+                arg = "big/long.f" if how == "name" else w._open("big/long.f")
+                fmt = w.call(SI, "get_source_info", arg)
+                r.instances += 1
+                ok = bool(fmt.get(w.ev, "is_fixed"))
+                r.ob(ok, "a fixed-form file of %d characters given by %s: %s" % (len(long_text), how, fmt.get(w.ev, "mode")))
+                if not ok:
+                    case = Case("long-file/%s" % how.split()[0], text[:6], [], {}, what="a fixed-form file of %d characters, given by %s"
+                                % (len(long_text), how))
+                    run.fail(case, "form", "get_source_info says %s for a file in which every line is fixed form: the form depends on how "
+                             "the file is read (in pieces that do not end at line ends, say), not on its text" % fmt.get(w.ev, "mode"))
+        except PE.Unsupported as err:
+            r.error("get_source_info cannot be interpreted statically on a file of the virtual file system (%s)" % err)
+        except PE.PyRaise as err:
+            r.instances += 1
+            r.ob(False)
+            run.fail(Case("long-file", text[:6], [], {}), "raises", "get_source_info raises %s on a long fixed-form file" % err.exc_type)
     # a comment introduced by '!' in columns 2-5 (F67)
     items = [L("program Main", (1, 1)), Cm("   ! a remark", 2), L("integer Idx, j", (3, 4)), L("end program Main", (5, 5))]
     case = Case("bang-comment-in-columns-2-5", F67_CASE, items, {"ignore_comments": False},
@@ -1314,9 +1403,11 @@ def cpp_rule(m, rid, tier):
                 for title, feats in (table[0], table[-1], table[5]):
                     rng = _rng("cpp", form, rep, pi, title)
                     lines, items = layout(prog, rng, feats)
-                    l2, i2 = with_directives(lines, items, rng, 5, fixed=(form == "fixed"))
+                    # (the first directive of every other source is a backslash-continued one in front of the first statement)
+                    top = [d for d in CPP_LINES if len(d) > 1][(rep + pi) % 2] if (rep + pi + len(title)) % 2 == 0 else None
+                    l2, i2 = with_directives(lines, items, rng, 0 if top else 5, fixed=(form == "fixed"), at_top=top)
                     case = Case("%s/%s" % (form, title), l2, i2, {"ignore_comments": False},
-                                what="%s form, %s, 5 directive lines inserted" % (form, title))
+                                what="%s form, %s, %s" % (form, title, "a continued directive in front of the first statement" if top else "5 directive lines inserted"))
                     got = run.expect(case, i2)
                     if got is None:
                         if run.dead:
@@ -1382,13 +1473,35 @@ def include_rule(m, rid, tier):
                 for nested in (False, True):
                     rng = _rng("include", rep, pi, title, nested)
                     lines, items, files, dirs = include_layout(prog, rng, feats, nested)
+                    lines0, items0, files0 = lines, items, files
                     for ic in (False, True):
                         case = Case("%s%s" % (title, "/nested" if nested else ""), lines, items, {"ignore_comments": ic, "include_dirs": dirs},
                                     files=files, what="%s%s, comments %s" % (title, ", nested include" if nested else "", "ignored" if ic else "kept"))
                         want = [i for i in items if not (ic and i[0] == "Comment")]
                         if run.expect(case, want) is None and run.dead:
                             return r
+                    # the included files in fixed form (the form of every file is detected on its own)
+                    rng = _rng("include-fixed", rep, pi, title, nested)
+                    lines, items, files, dirs = include_layout(prog, rng, feats, nested, fixed_files=True)
+                    case = Case("%s%s/fixed-files" % (title, "/nested" if nested else ""), lines, items, {"ignore_comments": False, "include_dirs": dirs},
+                                files=files, what="%s%s, include files in fixed form" % (title, ", nested include" if nested else ""))
+                    if run.expect(case, items) is None and run.dead:
+                        return r
+                    # an INCLUDE that cannot be resolved directly in front, and a consumer that reads one item ahead and restores
+                    rng = _rng("include-ahead", rep, pi, title, nested)
+                    lines, items, files, dirs = include_layout(prog, rng, feats, nested, missing_first=True)
+                    case = Case("%s%s/read-ahead" % (title, "/nested" if nested else ""), lines, items, {"ignore_comments": True, "include_dirs": dirs},
+                                files=files, what="%s%s, an unresolved INCLUDE in front, consumer reads one item ahead and restores"
+                                                  % (title, ", nested include" if nested else ""))
+                    want = [i for i in items if i[0] != "Comment"]
+                    got = run.read(case, lookahead=True)
+                    if got is None:
+                        if run.dead:
+                            return r
+                        continue
+                    run.expect(case, want, got=got)
                     # the file is nowhere: the line stays
+                    lines, items, files = lines0, items0, files0
                     inc_no = next(k for k, l_ in enumerate(lines) if l_.strip().lower().startswith("include")) + 1
                     case = Case("%s/missing" % title, lines, items, {"ignore_comments": True, "include_dirs": ["nowhere"]}, files=files,
                                 what="%s, include file not on the path" % title)
